@@ -48,7 +48,7 @@ impl<T> VxIter<T> {
     /// outcome was true are kept, in order
     #[verifier::external_body]
     pub fn filter<F: FnMut(&T) -> bool>(self, f: F) -> (r: VxIter<T>)
-        requires forall|x: T| f.requires((&x,)),
+        requires forall|i: int| 0 <= i < self.rest().len() ==> f.requires((&#[trigger] self.rest()[i],)),
         ensures
             r.filter_src() == self.rest(),
             r.filter_sel().len() == self.rest().len(),
